@@ -366,7 +366,8 @@ pub fn get_best_move(
         moves = generate_moves(board, MoveGenerationMode::AllMoves, &zobrist_hasher);
         if let Some(b) = &best_move {
             for mov in &mut moves {
-                if mov.last_move == b.last_move {
+                // the four promotions of a pawn share their squares, only the piece tells them apart
+                if mov.last_move == b.last_move && mov.pawn_promotion == b.pawn_promotion {
                     // found the pv node
                     mov.order_heuristic = POS_INF;
                     break;
